@@ -6,6 +6,7 @@ package interp
 
 import (
 	"bytes"
+	"math"
 	"path"
 	"path/filepath"
 	"reflect"
@@ -60,6 +61,18 @@ func toGo(v value, t reflect.Type) (reflect.Value, bool) {
 		if x, ok := v.(bool); ok {
 			return reflect.ValueOf(x).Convert(t), true
 		}
+	case reflect.Uint32:
+		if x, ok := v.(uint32); ok {
+			return reflect.ValueOf(x).Convert(t), true
+		}
+	case reflect.Float64:
+		if x, ok := v.(float64); ok {
+			return reflect.ValueOf(x).Convert(t), true
+		}
+	case reflect.Float32:
+		if x, ok := v.(float32); ok {
+			return reflect.ValueOf(x).Convert(t), true
+		}
 	case reflect.Slice:
 		xs, ok := v.([]value)
 		if !ok {
@@ -97,6 +110,12 @@ func fromGo(rv reflect.Value) (value, bool) {
 		return rv.Uint(), true
 	case reflect.Bool:
 		return rv.Bool(), true
+	case reflect.Uint32:
+		return uint32(rv.Uint()), true
+	case reflect.Float64:
+		return rv.Float(), true
+	case reflect.Float32:
+		return float32(rv.Float()), true
 	case reflect.Slice:
 		if rv.IsNil() {
 			return []value(nil), true
@@ -208,4 +227,8 @@ func init() {
 	regNative("unicode/utf8.ValidString", utf8.ValidString)
 	regNative("unicode/utf8.RuneLen", utf8.RuneLen)
 	regNative("unicode/utf8.ValidRune", utf8.ValidRune)
+	regNative("math.Float64frombits", math.Float64frombits)
+	regNative("math.Float64bits", math.Float64bits)
+	regNative("math.Float32frombits", math.Float32frombits)
+	regNative("math.Float32bits", math.Float32bits)
 }
